@@ -17,12 +17,14 @@ CONSTANTS Uids, EmitCases,
 VARIABLES sticky, ww, dirUid, linkUid, caller, pos, sysctl, done
 vars == <<sticky, ww, dirUid, linkUid, caller, pos, sysctl, done>>
 
-Positions == {"trailing", "intermediate", "nested-trailing"}
+\* "abs-into-root": the trailing link's body is absolute and names a link that sits directly in the ROOT directory
+\* (whose mode and owner are then the ones that count): the walk re-enters the root after the absolute jump
+Positions == {"trailing", "intermediate", "nested-trailing", "abs-into-root"}
 
 \* kernel: only links followed as the trailing component of a walk (the top-level path or the body
 \* of a trailing link) are subject to the restriction
-KernelRefuses == pos \in {"trailing", "nested-trailing"} /\ ~MayFollow(sysctl, caller, linkUid, dirUid, sticky, ww)
-EmuRefuses    == (EmuChecksEveryLink \/ pos \in {"trailing", "nested-trailing"}) /\ ~MayFollow(sysctl, caller, linkUid, dirUid, sticky, ww)
+KernelRefuses == pos \in {"trailing", "nested-trailing", "abs-into-root"} /\ ~MayFollow(sysctl, caller, linkUid, dirUid, sticky, ww)
+EmuRefuses    == (EmuChecksEveryLink \/ pos \in {"trailing", "nested-trailing", "abs-into-root"}) /\ ~MayFollow(sysctl, caller, linkUid, dirUid, sticky, ww)
 
 Init ==
     /\ sticky \in BOOLEAN /\ ww \in BOOLEAN /\ dirUid \in Uids /\ linkUid \in Uids /\ caller \in Uids
